@@ -165,56 +165,93 @@ func responseShapesRandom(r *c.Rng, nf, n int) []Config {
 // Request direction over nf Filters (connections on "hit" or "miss" chosen per
 // source) and g (GenerateResponse, only ever a target): every subset of the
 // connections, every entry point.  The response side has a node for g.
-func requestShapes(nf int, sample func(i int) bool) []Config {
+func requestCands(nf int) ([]string, [][2]string) {
 	var fs []string
 	for i := 0; i < nf; i++ {
 		fs = append(fs, string(rune('a'+i)))
 	}
 	targets := append(append([]string{}, fs...), "g", "")
-	type cand struct{ from, to string }
-	var cands []cand
+	var cands [][2]string
 	for _, f := range fs {
 		for _, t := range targets {
-			cands = append(cands, cand{f, t})
+			cands = append(cands, [2]string{f, t})
 		}
 	}
-	_ = cands
+	return fs, cands
+}
+
+// one request shape: root ("" none), m = subset of cands, cm = Filters connecting on "miss"
+func requestShape(nf int, root string, m uint64, cm int) Config {
+	fs, cands := requestCands(nf)
+	var req []Conn
+	if root != "" {
+		req = append(req, s2p(root))
+	}
+	for i, cd := range cands {
+		if m>>uint(i)&1 == 0 {
+			continue
+		}
+		cond := "hit"
+		if cm>>(int(cd[0][0]-'a'))&1 == 1 {
+			cond = "miss"
+		}
+		if cd[1] == "" {
+			req = append(req, p2s(cd[0], cond))
+		} else {
+			req = append(req, p2p(cd[0], cond, cd[1]))
+		}
+	}
+	f := FlowCfg{Name: "A", URL: mainURL, Procs: []Proc{gen1("g"), filt("r")},
+		Req: req, Res: []Conn{s2p("r"), p2s("r", "hit"), p2s("g", "")}}
+	for _, k := range fs {
+		f.Procs = append(f.Procs, filt(k))
+	}
+	return Config{Flows: []FlowCfg{f}}
+}
+
+func requestShapes(nf int, sample func(i int) bool) []Config {
+	fs, cands := requestCands(nf)
 	var out []Config
 	idx := 0
 	roots := append([]string{""}, append(append([]string{}, fs...), "g")...)
 	for _, root := range roots {
-		for m := 1; m < 1<<len(cands); m++ {
-			for cm := 0; cm < 1<<nf; cm++ { // which Filters connect on "miss" instead of "hit"
+		for m := uint64(1); m < 1<<uint(len(cands)); m++ {
+			for cm := 0; cm < 1<<nf; cm++ {
 				idx++
 				if sample != nil && !sample(idx) {
 					continue
 				}
-				var req []Conn
-				if root != "" {
-					req = append(req, s2p(root))
-				}
-				for i, cd := range cands {
-					if m>>i&1 == 0 {
-						continue
-					}
-					cond := "hit"
-					if cm>>(int(cd.from[0]-'a'))&1 == 1 {
-						cond = "miss"
-					}
-					if cd.to == "" {
-						req = append(req, p2s(cd.from, cond))
-					} else {
-						req = append(req, p2p(cd.from, cond, cd.to))
-					}
-				}
-				f := FlowCfg{Name: "A", URL: mainURL, Procs: []Proc{gen1("g"), filt("r")},
-					Req: req, Res: []Conn{s2p("r"), p2s("r", "hit"), p2s("g", "")}}
-				for _, k := range fs {
-					f.Procs = append(f.Procs, filt(k))
-				}
-				out = append(out, Config{Flows: []FlowCfg{f}})
+				out = append(out, requestShape(nf, root, m, cm))
 			}
 		}
+	}
+	return out
+}
+
+// n random request shapes (sparse; mostly rooted at a, mostly on "hit")
+func requestShapesRandom(r *c.Rng, nf, n int) []Config {
+	fs, cands := requestCands(nf)
+	roots := append([]string{""}, append(append([]string{}, fs...), "g")...)
+	var out []Config
+	for i := 0; i < n; i++ {
+		var m uint64
+		for b := range cands {
+			if r.Chance(1, 3) {
+				m |= 1 << uint(b)
+			}
+		}
+		if m == 0 {
+			m = 1
+		}
+		root := "a"
+		if r.Chance(1, 4) {
+			root = c.Pick(r, roots)
+		}
+		cm := 0
+		if r.Chance(1, 3) {
+			cm = r.Intn(1 << nf)
+		}
+		out = append(out, requestShape(nf, root, m, cm))
 	}
 	return out
 }
@@ -364,6 +401,20 @@ func defectVariants() []Item {
 	add("response-cycle-different-conditions", func(f *FlowCfg, cf *Config) {
 		f.Procs = append(f.Procs, filt("c"), filt("d"))
 		f.Res = append(f.Res, p2p("g", "", "c"), p2p("c", "hit", "d"), p2p("d", "miss", "c"))
+	})
+	add("diamond-same-condition", func(f *FlowCfg, cf *Config) {
+		f.Procs = append(f.Procs, filt("c"), filt("d"))
+		f.Req = []Conn{s2p("a"), p2p("a", "hit", "b"), p2p("b", "hit", "c"), p2p("b", "hit", "d"), p2p("c", "hit", "d"),
+			p2s("d", "hit"), p2s("a", "miss")}
+	})
+	add("diamond-behind-hand-over", func(f *FlowCfg, cf *Config) {
+		f.Procs = append(f.Procs, filt("c"), filt("d"), filt("e"))
+		f.Res = append(f.Res, p2p("g", "", "c"), p2p("c", "hit", "d"), p2p("c", "hit", "e"), p2p("d", "hit", "e"), p2s("e", "hit"))
+	})
+	add("double-diamond", func(f *FlowCfg, cf *Config) {
+		f.Procs = append(f.Procs, filt("c"), filt("d"), filt("e"))
+		f.Req = []Conn{s2p("a"), p2p("a", "hit", "b"), p2p("a", "hit", "c"), p2p("b", "hit", "d"), p2p("c", "hit", "d"),
+			p2p("d", "hit", "e"), p2p("d", "miss", "e"), p2s("e", "hit"), p2s("a", "miss")}
 	})
 	add("answering-processor-without-response-node", func(f *FlowCfg, cf *Config) { f.Res = f.Res[:2] })
 	add("self-flow-reference", func(f *FlowCfg, cf *Config) { f.Req = append(f.Req, p2f("b", "miss", "A")) })
